@@ -686,6 +686,9 @@ impl World {
 		{
 			self.harness_error(format!("simulator broke the Persist contract: {} at {}", msg, loc));
 			return;
+		} else if loc.contains("chain/onchaintx.rs") || loc.contains("chain/package.rs") {
+			// LDK's own (debug) assertions in the claim machinery are treated as on-chain oracles
+			("C07", "C07-0 panic in on-chain claim handling")
 		} else if what.starts_with("Restart") {
 			("C10", "C10-1 restart panicked")
 		} else {
@@ -1035,6 +1038,42 @@ impl World {
 			}
 			return;
 		}
+		// BOLT-2's inherent race: the funder sends an HTLC (or fee update) it can afford on the
+		// commitments it knows while the peer's own not-yet-acknowledged update_add_htlc raise the
+		// fee the funder must pay; the receiver then finds the funder below its reserve and, as the
+		// spec prescribes, fails the channel. Reported as its own oracle (a known finding).
+		if self.strict_offchain
+			&& (data.contains("under remote reserve value") || data.contains("cannot afford"))
+		{
+			if let Some(c) = self.chan_by_id(&chan) {
+				if !self.ledgers[c].disabled {
+					let side = self.ledgers[c].side_of(n).unwrap_or(0);
+					let crossing = self.ledgers[c].unacked_adds_or_fees(side);
+					let own_fulfills = self.ledgers[c].unacked_fulfills(1 - side);
+					let ctx = if crossing > 0 {
+						format!(
+							"crossing updates: {} update_add_htlc/update_fee of the complaining node were not yet acknowledged by the funder when its HTLC arrived",
+							crossing
+						)
+					} else if own_fulfills > 0 {
+						format!(
+							"sender's uncommitted fulfils: the funder counted {} inbound HTLC(s) it had just fulfilled (update_fulfill_htlc sent, not yet committed) towards its balance, the receiver does not until the commitment_signed",
+							own_fulfills
+						)
+					} else {
+						"no crossing updates: the sender's reported limit was simply too high".to_string()
+					};
+					self.violate(
+						"C01",
+						"C01-3 reserve violation closes the channel between honest peers",
+						format!("node {} closes channel {} on node {}: {} [{}]", n, c, to, data, ctx),
+					);
+					self.chans[c].tainted = true;
+					self.ledgers[c].disabled = true;
+					return;
+				}
+			}
+		}
 		// Only stale messages for a channel that was already closed cooperatively (or that the
 		// user force-closed) may be answered with an error.
 		let expected = match self.chan_by_id(&chan) {
@@ -1340,6 +1379,20 @@ impl World {
 		let short = reason.split(|c: char| !c.is_alphanumeric()).next().unwrap_or("").to_string();
 		self.out.bump(&format!("closure:{}", short));
 		let coop = short.contains("CooperativeClosure");
+		if self.strict_offchain
+			&& (reason.contains("under remote reserve value") || reason.contains("cannot afford"))
+		{
+			// classified (and reported) when the error message is emitted, see on_error_emitted
+			if let Some(c) = ci {
+				if !self.chans[c].tainted {
+					let peer = if self.chans[c].a == n { self.chans[c].b } else { self.chans[c].a };
+					let cid = self.chans[c].channel_id;
+					let text = reason.clone();
+					self.on_error_emitted(n, peer, &text, cid, "error");
+				}
+				return;
+			}
+		}
 		if short == "OutdatedChannelManager" {
 			if let Some(c) = ci {
 				self.nodes[n].outdated_chans.insert(c);
